@@ -23,24 +23,39 @@ Proof.
   apply sremove_ok in E. destruct E as [A ->]. intro H; inversion H. auto.
 Qed.
 
-(** closed form of a successful delete_connection in the source as it stands *)
-Lemma delete_connection_closed g key g' : fx_nbr (fx g) = false -> delete_connection g key = Ok g' ->
-  exists k, kget g key = Some k /\ In k (cks g (k0 g k)) /\ In k (klist g) /\
-    g' = set_klist (set_kdict (set_ccon g (ccon_del (ccon g) (k0 g k) (k1 g k) k)) (adel key2_eqb (kdict g) key)) (lremove (klist g) k).
+(** the state after the connection itself is gone (before any update of the neighbour sets) *)
+Definition dk_base (g : geo) (key : key2) (k : id) : geo :=
+  set_klist (set_kdict (set_ccon g (ccon_del (ccon g) (k0 g k) (k1 g k) k)) (adel key2_eqb (kdict g) key)) (lremove (klist g) k).
+(** closed form of a successful delete_connection: the base state, with the neighbour sets possibly updated
+    (repaired source); in the source as it stands they are untouched *)
+Lemma delete_connection_closed_any g key g' : delete_connection g key = Ok g' ->
+  exists k N, kget g key = Some k /\ In k (cks g (k0 g k)) /\ In k (klist g) /\ g' = set_cnbr (dk_base g key k) N /\
+              (fx_nbr (fx g) = false -> N = cnbr g).
 Proof.
-  intros Fx H. unfold delete_connection in H. destruct (kget g key) as [k|] eqn:E; [|discriminate]. exists k. split; [reflexivity|].
+  intro H. unfold delete_connection in H. destruct (kget g key) as [k|] eqn:E; [|discriminate]. exists k.
   destruct (ccon_remove g (k0 g k) k) as [g1|] eqn:R1; cbn [bind] in H; [|discriminate].
   apply ccon_remove_ok in R1. destruct R1 as [In1 ->].
   match type of H with context [ccon_remove ?G ?c ?x] => destruct (ccon_remove G c x) as [g2|] eqn:R2 end; cbn [bind] in H; [|discriminate].
-  apply ccon_remove_ok in R2. destruct R2 as [_ ->]. revert H. gs. rewrite Fx.
-  destruct (mem k (klist g)) eqn:M; [|discriminate]. intro H. inversion H; subst g'; clear H.
-  split; [exact In1|]. split; [apply mem_In; exact M|]. reflexivity.
+  apply ccon_remove_ok in R2. destruct R2 as [_ ->]. revert H. gs.
+  destruct (mem k (klist g)) eqn:M; [|discriminate]. apply mem_In in M.
+  destruct (fx_nbr (fx g)).
+  - match goal with |- context [still_joined ?G ?a ?b] => destruct (still_joined G a b) end; intro H; inversion H; subst g'; clear H.
+    + exists (cnbr g). repeat split; auto.
+    + unfold nbr_discard. gs. eexists. repeat split; try assumption; try reflexivity. discriminate.
+  - intro H. inversion H; subst g'; clear H. exists (cnbr g). repeat split; auto.
+Qed.
+Lemma delete_connection_closed g key g' : fx_nbr (fx g) = false -> delete_connection g key = Ok g' ->
+  exists k, kget g key = Some k /\ In k (cks g (k0 g k)) /\ In k (klist g) /\ g' = dk_base g key k.
+Proof.
+  intros Fx H. destruct (delete_connection_closed_any g key g' H) as [k [N [E [A [B [Eg EN]]]]]].
+  exists k. rewrite (EN Fx) in Eg. repeat split; assumption.
 Qed.
 
-(** [delete_connection] keeps the object graph consistent *)
-Lemma delete_connection_invS g key g' : fx_nbr (fx g) = false -> InvS g -> delete_connection g key = Ok g' -> InvS g'.
+Lemma invS_set_cnbr g m : InvS g -> InvS (set_cnbr g m).
+Proof. intros [F P1 P1k P2 P3 P4 P5]. constructor; assumption. Qed.
+Lemma dk_base_invS g key k : InvS g -> kget g key = Some k -> In k (klist g) -> InvS (dk_base g key k).
 Proof.
-  intros Fx I H. destruct (delete_connection_closed g key g' Fx H) as [k [E [_ [Hk ->]]]].
+  intros I E Hk. unfold dk_base.
   destruct I as [F P1 P1k P2 P3 P4 P5].
   destruct (s1k_kget g key k P1k E) as [_ Hkey].
   pose proof (s3_neq g P3 k Hk) as Hab.
@@ -63,6 +78,12 @@ Proof.
   - intros k' Hk'. revert Hk'. gsu. intro Hk'. apply lremove_incl in Hk'. exact (P4 k' Hk').
   - exact P5.
 Qed.
+(** [delete_connection] keeps the object graph consistent (either source variant) *)
+Lemma delete_connection_invS g key g' : InvS g -> delete_connection g key = Ok g' -> InvS g'.
+Proof.
+  intros I H. destruct (delete_connection_closed_any g key g' H) as [k [N [E [_ [Hk [-> _]]]]]].
+  apply invS_set_cnbr, dk_base_invS; assumption.
+Qed.
 
 (** the two columns stay joined by another connection *)
 Definition joined_otherwise (g : geo) (key : key2) : Prop :=
@@ -72,8 +93,8 @@ Definition joined_otherwise (g : geo) (key : key2) : Prop :=
 Theorem delete_connection_inv g key g' : fx_nbr (fx g) = false -> Inv g -> joined_otherwise g key -> llist g = [] ->
   delete_connection g key = Ok g' -> Inv g'.
 Proof.
-  intros Fx I J Hlay H. constructor; [eapply delete_connection_invS; [exact Fx|apply I|exact H]|].
-  destruct (delete_connection_closed g key g' Fx H) as [k [E [_ [Hk ->]]]].
+  intros Fx I J Hlay H. constructor; [eapply delete_connection_invS; [apply I|exact H]|].
+  destruct (delete_connection_closed g key g' Fx H) as [k [E [_ [Hk ->]]]]. unfold dk_base.
   destruct (J k E) as [k' [Hk' [Nk' Je]]].
   destruct I as [[F P1 P1k P2 P3 P4 P5] [D1 D2 D3]]. pose proof (dl_nodup _ _ _ P1k) as NDk.
   constructor.
@@ -90,32 +111,35 @@ Qed.
 (** ** delete_column *)
 (** states that differ only in the connection sets, the connection dictionary and the connection list *)
 Definition same_but_conns (g g' : geo) : Prop :=
-  exists C D L, g' = set_klist (set_kdict (set_ccon g C) D) L.
+  exists C D L N, g' = set_cnbr (set_klist (set_kdict (set_ccon g C) D) L) N /\ (fx_nbr (fx g) = false -> N = cnbr g).
 Lemma same_but_conns_refl g : same_but_conns g g.
-Proof. exists (ccon g), (kdict g), (klist g). reflexivity. Qed.
+Proof. exists (ccon g), (kdict g), (klist g), (cnbr g). split; reflexivity. Qed.
 Lemma same_but_conns_trans g1 g2 g3 : same_but_conns g1 g2 -> same_but_conns g2 g3 -> same_but_conns g1 g3.
-Proof. intros [C [D [L ->]]] [C' [D' [L' ->]]]. exists C', D', L'. reflexivity. Qed.
+Proof.
+  intros [C [D [L [N [-> EN]]]]] [C' [D' [L' [N' [-> EN']]]]]. exists C', D', L', N'. split; [reflexivity|].
+  intro Fx. rewrite (EN' Fx). gs. exact (EN Fx).
+Qed.
 
-Lemma delete_conns_spec ks : forall g g', fx_nbr (fx g) = false -> InvS g -> (forall k, In k ks -> In k (klist g)) -> NoDup ks ->
+Lemma delete_conns_spec ks : forall g g', InvS g -> (forall k, In k ks -> In k (klist g)) -> NoDup ks ->
   delete_conns g ks = Ok g' ->
   InvS g' /\ same_but_conns g g' /\ (forall k, In k (klist g') <-> In k (klist g) /\ ~ In k ks).
 Proof.
-  induction ks as [|k r IH]; cbn [delete_conns]; intros g g' Fx I Hin ND H.
+  induction ks as [|k r IH]; cbn [delete_conns]; intros g g' I Hin ND H.
   - inversion H; subst. split; [exact I|]. split; [apply same_but_conns_refl|]. intro k. cbn. tauto.
   - inversion ND as [|? ? Hk NDr]; subst.
     destruct (delete_connection g (kkey g k)) as [g1|] eqn:E; cbn [bind] in H; [|discriminate].
-    pose proof (delete_connection_invS g _ g1 Fx I E) as I1.
-    destruct (delete_connection_closed g _ g1 Fx E) as [k' [Ek' [_ [Hk' Eg1]]]].
+    pose proof (delete_connection_invS g _ g1 I E) as I1.
+    destruct (delete_connection_closed_any g _ g1 E) as [k' [N [Ek' [_ [Hk' [Eg1 EN]]]]]].
     assert (k' = k).
     { assert (X : kget g (kkey g k) = Some k).
       { unfold kget. apply (DL_aget_name key2_eqb key2_spec (kkey g) (klist g) (kdict g)); [apply I|apply Hin; left; reflexivity]. }
       congruence. }
     subst k'.
-    assert (S1 : same_but_conns g g1) by (rewrite Eg1; eexists _, _, _; reflexivity).
+    unfold dk_base in Eg1.
+    assert (S1 : same_but_conns g g1) by (rewrite Eg1; eexists _, _, _, _; split; [reflexivity|exact EN]).
     assert (Kl : klist g1 = lremove (klist g) k) by (rewrite Eg1; reflexivity).
-    assert (Fx1 : fx_nbr (fx g1) = false) by (rewrite Eg1; exact Fx).
     pose proof (dl_nodup _ _ _ (i_s1k g I)) as NDk.
-    destruct (IH g1 g' Fx1 I1) as [I' [S' K']]; [|exact NDr|exact H|].
+    destruct (IH g1 g' I1) as [I' [S' K']]; [|exact NDr|exact H|].
     + intros x Hx. rewrite Kl. apply In_lremove; [exact NDk|]. split; [apply Hin; right; exact Hx|]. intros ->. contradiction.
     + split; [exact I'|]. split; [eapply same_but_conns_trans; eauto|].
       intro x. rewrite K', Kl, (In_lremove _ _ _ NDk). cbn. split.
@@ -139,14 +163,14 @@ Proof.
     destruct (IH _ _ _ H) as [m [A ->]]. exists m. cbn [bind]. split; [exact A|reflexivity].
 Qed.
 
-Lemma delete_column_core g name g' : fx_nbr (fx g) = false -> InvS g -> delete_column g name = Ok g' ->
-  InvS g' /\ (S3b g -> S3b g') /\ (S5n g -> S5n g') /\ (llist g = [] -> S6 g -> S6 g').
+Lemma delete_column_core g name g' : InvS g -> delete_column g name = Ok g' ->
+  InvS g' /\ (fx_nbr (fx g) = false -> S3b g -> S3b g') /\ (S5n g -> S5n g') /\ (llist g = [] -> S6 g -> S6 g').
 Proof.
-  intros Fx IS H. unfold delete_column in H. destruct (cget g name) as [c|] eqn:E; [|discriminate].
+  intros IS H. unfold delete_column in H. destruct (cget g name) as [c|] eqn:E; [|discriminate].
   destruct (delete_conns g (filter (col_in_conn g c) (klist g))) as [g1|] eqn:E1; cbn [bind] in H; [|discriminate].
   assert (X1 : forall k, In k (filter (col_in_conn g c) (klist g)) -> In k (klist g)) by (intros k Hk; apply filter_In in Hk; apply Hk).
   assert (X2 : NoDup (filter (col_in_conn g c) (klist g))) by (apply NoDup_filter; apply (dl_nodup _ _ _ (i_s1k g IS))).
-  destruct (delete_conns_spec _ g g1 Fx IS X1 X2 E1) as [I1 [[C [D [L Eg1]]] K1]]. clear X1 X2.
+  destruct (delete_conns_spec _ g g1 IS X1 X2 E1) as [I1 [[C [D [L [NB [Eg1 EN]]]]] K1]]. clear X1 X2.
   destruct (nbrs_forget g1 (cnb g1 c) c) as [g2|] eqn:E2; cbn [bind] in H; [|discriminate].
   destruct (nbrs_forget_closed _ _ _ _ E2) as [mb [Rb Eg2]].
   destruct (nodes_forget g2 (cns g2 c) c) as [g3|] eqn:E3; cbn [bind] in H; [|discriminate].
@@ -154,10 +178,8 @@ Proof.
   revert H. gs. destruct (mem c (clist g3)) eqn:M; [|discriminate]. intro H. inversion H; subst g'; clear H.
   (* facts about the deleted column *)
   destruct (s1_cget g name c (i_s1 g IS) E) as [Hc Hname].
-  assert (Ecnb : cnb g1 c = cnb g c) by (rewrite Eg1; reflexivity).
   assert (Ecns : cns g2 c = cns g c) by (rewrite Eg2, Eg1; reflexivity).
-  rewrite Ecnb in Rb. rewrite Ecns in Rn.
-  assert (Ecnbr : cnbr g1 = cnbr g) by (rewrite Eg1; reflexivity). rewrite Ecnbr in Rb.
+  rewrite Ecns in Rn.
   assert (Encol : ncol g2 = ncol g) by (rewrite Eg2, Eg1; reflexivity). rewrite Encol in Rn.
   destruct (removeall_ok _ _ _ _ (proj1 (i_s5p g IS c Hc)) Rn) as [_ Fn].
   (* no remaining connection involves c *)
@@ -174,7 +196,7 @@ Proof.
   assert (Lc : forall x, In x (lremove (clist g) c) <-> In x (clist g) /\ x <> c) by (intro x; apply In_lremove; exact NDc).
   pose proof (i_s1 g IS) as P1g.
   destruct I1 as [F1 P1 P1k P2 P3 P4 P5].
-  clear E2 E3 M Ecnb Ecns Ecnbr Encol E1. subst g3 g2 g1. gs.
+  clear E2 E3 M Ecns Encol E1. subst g3 g2 g1. gs.
   split; [constructor|split; [|split]].
   - destruct F1 as [A1 [A2 [A3 [A4 A5]]]]. unfold Fr in *. gs. repeat split; try assumption.
     intros x Hx. apply lremove_incl in Hx. auto.
@@ -195,11 +217,11 @@ Proof.
     + intros c' Hc'. apply lremove_incl in Hc'. exact (Q3 c' Hc').
   - exact P4.
   - intros c' Hc'. revert Hc'. gsu. intro Hc'. apply lremove_incl in Hc'. exact (P5 c' Hc').
-  - intros [Qb1 Qb2]. destruct (removeall_ok _ _ _ _ (Qb1 c Hc) Rb) as [_ Fb].
+  - intros Fx [Qb1 Qb2]. pose proof (EN Fx) as ENx. subst NB. destruct (removeall_ok _ _ _ _ (Qb1 c Hc) Rb) as [_ Fb].
     unfold S3b. gsu. split.
     + intros d Hd. apply lremove_incl in Hd. rewrite Fb. destruct (mem d _); [apply NoDup_lremove|]; exact (Qb1 d Hd).
     + intros d Hd e. apply Lc in Hd. destruct Hd as [Hd Nd]. rewrite Fb.
-      assert (J : joined (set_klist (set_kdict (set_ccon g C) D) L) d e <-> joined g d e /\ e <> c).
+      assert (J : joined (set_cnbr (set_klist (set_kdict (set_ccon g C) D) L) (cnbr g)) d e <-> joined g d e /\ e <> c).
       { unfold joined. gs. split.
         - intros [k [Hk Mk]]. destruct (Kc k Hk) as [A [Na Nb]]. split; [exists k; auto|].
           intros ->. destruct Mk as [[_ X]|[X _]]; contradiction.
@@ -215,25 +237,25 @@ Proof.
   - intros Hlay D3. apply (S6_no_layers g); auto.
 Qed.
 
-Theorem delete_column_invS g name g' : fx_nbr (fx g) = false -> InvS g -> delete_column g name = Ok g' -> InvS g'.
-Proof. intros Fx I H. exact (proj1 (delete_column_core g name g' Fx I H)). Qed.
+Theorem delete_column_invS g name g' : InvS g -> delete_column g name = Ok g' -> InvS g'.
+Proof. intros I H. exact (proj1 (delete_column_core g name g' I H)). Qed.
 Theorem delete_column_inv g name g' : fx_nbr (fx g) = false -> Inv g -> llist g = [] -> delete_column g name = Ok g' -> Inv g'.
 Proof.
-  intros Fx [IS [D1 D2 D3]] Hlay H. destruct (delete_column_core g name g' Fx IS H) as [A [B [C D]]].
+  intros Fx [IS [D1 D2 D3]] Hlay H. destruct (delete_column_core g name g' IS H) as [A [B [C D]]].
   constructor; [exact A|constructor; auto].
 Qed.
 
 (** closed form of a successful delete_column: only the connection sets / dictionary / list, the
     neighbour sets, the nodes' column sets and the column dictionary / list change *)
-Lemma delete_column_closed g name g' : fx_nbr (fx g) = false -> InvS g -> delete_column g name = Ok g' ->
+Lemma delete_column_closed g name g' : InvS g -> delete_column g name = Ok g' ->
   exists C D L mb mn cd cl_, g' = set_clist (set_cdict (set_ncol (set_cnbr (set_klist (set_kdict (set_ccon g C) D) L) mb) mn) cd) cl_ /\
     (forall k, In k L -> In k (klist g)) /\ (forall c, In c cl_ -> In c (clist g)).
 Proof.
-  intros Fx IS H. unfold delete_column in H. destruct (cget g name) as [c|] eqn:E; [|discriminate].
+  intros IS H. unfold delete_column in H. destruct (cget g name) as [c|] eqn:E; [|discriminate].
   destruct (delete_conns g (filter (col_in_conn g c) (klist g))) as [g1|] eqn:E1; cbn [bind] in H; [|discriminate].
   assert (X1 : forall k, In k (filter (col_in_conn g c) (klist g)) -> In k (klist g)) by (intros k Hk; apply filter_In in Hk; apply Hk).
   assert (X2 : NoDup (filter (col_in_conn g c) (klist g))) by (apply NoDup_filter; apply (dl_nodup _ _ _ (i_s1k g IS))).
-  destruct (delete_conns_spec _ g g1 Fx IS X1 X2 E1) as [I1 [[C [D [L Eg1]]] K1]]. clear X1 X2.
+  destruct (delete_conns_spec _ g g1 IS X1 X2 E1) as [I1 [[C [D [L [N [Eg1 EN]]]]] K1]]. clear X1 X2.
   destruct (nbrs_forget g1 (cnb g1 c) c) as [g2|] eqn:E2; cbn [bind] in H; [|discriminate].
   destruct (nbrs_forget_closed _ _ _ _ E2) as [mb [Rb Eg2]].
   destruct (nodes_forget g2 (cns g2 c) c) as [g3|] eqn:E3; cbn [bind] in H; [|discriminate].
